@@ -510,7 +510,18 @@ func (c *FnCtx) evQuant(x *eQuant, env *evalEnv) *Val {
 			guards = append(guards, intRange(T, nm))
 		}
 	}
-	body := c.ev(x.body, &n)
+	c.qDepth++
+	c.qFacts = append(c.qFacts, nil)
+	var body *Val
+	func() {
+		defer func() {
+			c.qDepth--
+			facts := c.qFacts[len(c.qFacts)-1]
+			c.qFacts = c.qFacts[:len(c.qFacts)-1]
+			guards = append(guards, facts...)
+		}()
+		body = c.ev(x.body, &n)
+	}()
 	g := and(guards...)
 	if x.forall {
 		return c.mk(boolT, fmt.Sprintf("(forall (%s) %s)", strings.Join(binders, " "), implies(g, body.S)))
@@ -640,13 +651,22 @@ func (c *FnCtx) evCall(x *eCall, env *evalEnv) *Val {
 			_, has := c.mapGet(c.state(env), m.T, m.S, ks)
 			return c.mk(boolT, has)
 		case "iter":
-			n, _ := strconv.Atoi(x.args[0].(*eInt).v)
-			for _, li := range c.loopOrd {
-				if li.ordinal == n && li.rangeIx != nil {
-					return c.mk(intT, app("+", c.regs[li.rangeIx].S, "1"))
+			var target *loopInfo
+			switch a := x.args[0].(type) {
+			case *eInt:
+				n, _ := strconv.Atoi(a.v)
+				for _, li := range c.loopOrd {
+					if li.ordinal == n {
+						target = li
+					}
 				}
+			case *eIdent:
+				target = c.loopOfVar(a.name)
 			}
-			c.efail("iter(%d): no range-index loop with that ordinal", n)
+			if target == nil || target.rangeIx == nil || c.regs[target.rangeIx] == nil {
+				c.efail("iter(%s): no range-index loop", exprText(x.args[0]))
+			}
+			return c.mk(intT, app("+", c.regs[target.rangeIx].S, "1"))
 		case "called":
 			return c.evCalled(x, env)
 		case "ite":
